@@ -118,6 +118,6 @@ func TestC07(t *testing.T) {
 		cs := caseOf(baseConfig(), []string{f.RelPath}, f)
 		jobs := buildJobs(rt, c, f.Root, progRoot, plan, o, cs)
 		c.Sample(sampleOf(cs, jobs))
-		return &RunCase{Case: cs, Jobs: jobs}
+		return &RunCase{Case: cs, Jobs: jobs, Model: modelIfSingle(cs, f)}
 	}, stdJudge)
 }
